@@ -37,8 +37,8 @@ SECOND = 1_000_000_000
 
 
 # ----------------------------------------------------------------------------------------
-# harness build (shared).  build_harness keys extra sources by include/ only; the CLI unit
-# #includes src/main.cpp, so it is compiled here with a key that covers the src/ tree.
+# harness build (shared).  build_harness keys extra sources by include/ only; the two harness units
+# #include ControlServer.cpp / main.cpp, so they are compiled here with keys covering exactly those files.
 # ----------------------------------------------------------------------------------------
 
 def harness():
@@ -46,10 +46,11 @@ def harness():
     inc_hash = tree_hash("include")
     common = VERIF / "harness" / "common"
     common_hash = sha(*[p.read_bytes() for p in sorted(common.glob("*")) if p.is_file()])
-    src_hash = tree_hash("src")
+    server_hash = sha((REPO / SERVER).read_bytes())          # control_h.cpp #includes ControlServer.cpp
+    cli_hash = sha((REPO / "src/main.cpp").read_bytes())     # control_cli_h.cpp #includes main.cpp
     jobs = [(REPO / s, inc_hash) for s in ALL_CORE_SOURCES + [CLIENT, "src/daemon/ControlPlane.cpp", "src/daemon/StructuredLogger.cpp"]]
-    jobs.append((VERIF / "harness/control_h.cpp", inc_hash + common_hash + src_hash))
-    jobs.append((VERIF / "harness/control_cli_h.cpp", inc_hash + common_hash + src_hash))
+    jobs.append((VERIF / "harness/control_h.cpp", inc_hash + common_hash + server_hash))
+    jobs.append((VERIF / "harness/control_cli_h.cpp", inc_hash + common_hash + cli_hash))
     jobs.append((common / "vclock.cpp", ""))
     with cf.ThreadPoolExecutor(max_workers=NPROC) as ex:
         objs = list(ex.map(lambda j: _v._compile_obj(j[0], flags, j[1]), jobs))
